@@ -174,10 +174,10 @@ mutant("C16", "jacobi-diag-cached-per-dim", "src/darsia/utils/linear_solvers/jac
             self._diag_cache[(self.dim, h)] = self._diag(h)
         const_diag = self._diag_cache[(self.dim, h)]
 """, "diagonal memoised per (dim, h): ignores coefficient updates")
-mutant("C16", "bregman-always-reuses-factorisation", "src/darsia/measure/wasserstein.py",
+mutant("C04", "bregman-always-reuses-factorisation", "src/darsia/measure/wasserstein.py",
        """                        reuse_solver=iter > 0,
 """, """                        reuse_solver=True,
-""", "first Bregman iteration reuses whatever factorisation the object holds: the previous call's on a re-used object")
+""", "first Bregman iteration reuses the factorisation of the initial Darcy system: wrong whenever L*L_init != 1 (no dependence on earlier calls, hence a C04 mutant)")
 mutant("C16", "tvd-rhs-memo-per-shape", "src/darsia/restoration/split_bregman_tvd.py",
        """    def _rhs_function(dt: np.ndarray, bt: np.ndarray, ellt) -> np.ndarray:
         result = np.multiply(omega, img)
